@@ -33,7 +33,7 @@ from infretis.core import tis
 class Spec:
     def __init__(self, B=3, workers=1, moves=None, cap=None, maxlength=12, alphabet="sh",
                  engine_layout="single", seed=0, steps=10**6, scripted=True, real_store=False,
-                 n_jumps=None, restart_at=None, delete_old=False, extra=None, rich=False, labels=None):
+                 n_jumps=None, restart_at=None, delete_old=False, extra=None, rich=False, labels=None, restarts=False):
         self.B = B
         self.workers = workers
         self.moves = moves or ["sh"] * B
@@ -52,11 +52,13 @@ class Spec:
         # path numbers are labels: start the closure from a state of a long-running simulation
         # (adversarial labels such as 1, 10, 11, 100 — one a substring/prefix of another)
         self.labels = labels
+        # the closure also contains 'the main process is killed here and restarted from its files'
+        self.restarts = restarts
 
     def key(self):
         return (self.B, self.workers, tuple(self.moves), self.cap, self.maxlength, self.alphabet,
                 self.engine_layout, self.seed, repr(sorted(self.extra.items())), self.delete_old,
-                tuple(self.labels) if self.labels else None)
+                tuple(self.labels) if self.labels else None, self.restarts)
 
     def __repr__(self):
         return (f"Spec(B={self.B}, W={self.workers}, moves={self.moves}, cap={self.cap}, "
@@ -109,6 +111,34 @@ def stream_key(g):
             f"{st['state']:x}-{st['inc']:x}")
 
 
+def _same_draw(c, w0):
+    """The restored generator state yields the same uniform number as before the kill: the draw
+    lands in the same cell of the cumulative distribution.  If the restarted program presents the
+    same probabilities the answer is the same index; if it presents different ones, every index
+    whose cell overlaps the old cell is possible (for some seed) and all of them are explored."""
+    if w0 is None:
+        return c
+
+    def answer(n, weights):
+        if weights is None or n != len(w0):
+            return c
+        w1 = [float(x) for x in weights]
+        if w1 == w0:
+            return c
+        s0, s1 = sum(w0), sum(w1)
+        lo, hi = sum(w0[:c]) / s0, sum(w0[: c + 1]) / s0
+        out = []
+        a = 0.0
+        for i, x in enumerate(w1):
+            b = a + x / s1
+            if x > 0 and min(hi, b) - max(lo, a) > 1e-9:
+                out.append(i)
+            a = b
+        return out or c
+
+    return answer
+
+
 class StubStore:
     """PathStorage.output replaced by the identity (L1 has no trajectory files)."""
 
@@ -130,6 +160,7 @@ class L1Run:
         self.alph = path_alphabet(spec)
         self.accepted_counter = 0
         self.pick_answers = []  # answers of the scheduler's random draws since the last restart-file write
+        self.restart_text = None
         self._setup()
 
     # ------------------------------------------------------------------
@@ -181,6 +212,7 @@ class L1Run:
         (new.state, new.inflight, new.md_items, new.issued, new.obs) = copy.deepcopy(
             (self.state, self.inflight, self.md_items, self.issued, self.obs))
         new.ch = chooser
+        new.pick_answers = list(self.pick_answers)
         sr.use(chooser)
         activate(self.spec.scripted)
         if self.spec.scripted:
@@ -193,19 +225,43 @@ class L1Run:
         os.chdir(self.dir)
         return new
 
-    def restart(self):
+    def restart(self, steps=None, workers=None):
         """The main process dies (in-flight jobs are lost) and the program is
-        started again from the files on disk."""
+        started again from the files on disk.  ``steps`` / ``workers``: the user edits
+        these two keys of restart.toml before restarting (the documented way to extend a run)."""
         from infretis.setup import setup_config, setup_internal
 
         scenario.reset_globals()
         os.chdir(self.dir)
         activate(self.spec.scripted)
+        undo = None
+        if not self.spec.real_store:
+            undo = self._prepare_inmem_restart()
         toml = "restart.toml" if os.path.isfile("restart.toml") else "infretis.toml"
-        config = setup_config(toml)
-        if config is None:
-            raise Violation("restart:setup_config-none", f"setup_config({toml}) refused to restart")
-        self.md_items, self.state = setup_internal(config)
+        if steps is not None or workers is not None:
+            import tomli
+            import tomli_w
+
+            with open(toml, "rb") as f:
+                cfg = tomli.load(f)
+            if steps is not None:
+                cfg["simulation"]["steps"] = int(steps)
+            if workers is not None:
+                cfg["runner"]["workers"] = int(workers)
+            with open(toml, "wb") as f:
+                tomli_w.dump(cfg, f)
+            if not self.spec.real_store:
+                # the edited file is what is on disk until the restarted run completes a step
+                with open(toml, "rb") as f:
+                    self.restart_text = f.read()
+        try:
+            config = setup_config(toml)
+            if config is None:
+                raise Violation("restart:setup_config-none", f"setup_config({toml}) refused to restart")
+            self.md_items, self.state = setup_internal(config)
+        finally:
+            if undo:
+                undo()
         if not self.spec.real_store:
             self.state.pstore = StubStore()
         self.state.traj_data = self.state.traj_data
@@ -218,10 +274,48 @@ class L1Run:
         # file was written are answered exactly as before (they are not free choices)
         answers = list(self.pick_answers)
         self.pick_answers = []
-        self.ch.forced = [("pick", c) for lab, c in answers]
+        self.ch.forced = [("pick", _same_draw(c, w0)) for lab, c, w0 in answers]
         self.start()
         self.ch.forced = []
         self.pick_answers = answers  # restart.toml unchanged: a further restart replays them again
+
+    def _prepare_inmem_restart(self):
+        """Without trajectory files (StubStore) the restart reads this state's own restart file and the
+        real setup code runs unchanged except that load_paths_from_disk hands back copies of the paths
+        that were live in memory (looked up by the numbers the restart file names)."""
+        import infretis.setup as isetup
+
+        if self.restart_text is None:
+            raise RuntimeError("in-memory restart before the first restart file was written")
+        with open("restart.toml", "wb") as f:
+            f.write(self.restart_text)
+        by_num = {t.path_number: t for t in self.state._trajs[:-1]}
+        for pn in by_num:
+            d = os.path.join("load", str(pn))
+            os.makedirs(d, exist_ok=True)
+            t = os.path.join(d, "traj.txt")
+            if not os.path.isfile(t):
+                open(t, "w").close()
+        orig = isetup.load_paths_from_disk
+
+        def from_memory(config):
+            out = []
+            for pn in config["current"]["active"]:
+                if pn not in by_num:
+                    raise Violation("restart:names-a-path-that-is-not-live", f"restart file names path {pn}, live are {sorted(by_num)}")
+                q = by_num[pn].copy()
+                q.path_number = pn
+                q.generated = ("re", float("nan"), 0, 0)
+                q.maxlen = config["simulation"]["tis_set"]["maxlength"]
+                out.append(q)
+            return out
+
+        isetup.load_paths_from_disk = from_memory
+
+        def undo():
+            isetup.load_paths_from_disk = orig
+
+        return undo
 
     # ------------------------------------------------------------------
     def start(self):
@@ -244,7 +338,7 @@ class L1Run:
             if lab.startswith("pick"):
                 if lab.endswith("!"):
                     continue
-                self.pick_answers.append((lab, c))
+                self.pick_answers.append((lab, c, None if w is None else [float(x) for x in w]))
 
     def _pre_pick(self):
         st = self.state
@@ -342,6 +436,9 @@ class L1Run:
         """One iteration of scheduler()'s main loop."""
         st = self.state
         if not st.loop():
+            if not self.spec.real_store and os.path.isfile("restart.toml"):
+                with open("restart.toml", "rb") as f:
+                    self.restart_text = f.read()
             return False
         j = self.ch.choose(len(self.inflight), "complete")
         md = self.inflight.pop(j)
@@ -353,6 +450,10 @@ class L1Run:
                       data_size=os.path.getsize(st.data_file) if os.path.isfile(st.data_file) else 0)
         md = st.treat_output(md)
         self.pick_answers = []  # restart.toml now holds the generator state after these draws
+        if not self.spec.real_store:
+            # snapshots share the run directory: keep this state's own restart file
+            with open("restart.toml", "rb") as f:
+                self.restart_text = f.read()
         self.events += 1
         for ob in self.obs:
             ob.on_treat(self, md, before, outs[o])
@@ -368,6 +469,47 @@ class L1Run:
         return True
 
     # ------------------------------------------------------------------
+    # transitions of the closure beyond 'one scheduler iteration'
+    def remaining(self):
+        """Steps left beyond the jobs in flight (0 = the run is draining), capped."""
+        st = self.state
+        return max(-1, min(st.tsteps - st.cstep - len(self.inflight), 1))
+
+    def enabled_ops(self):
+        st = self.state
+        W = st.workers
+        if st.cstep >= st.tsteps:
+            if self.restart_text is None:
+                return []
+            # the finished run is extended: without limit, or by 1..W steps
+            return ["x"] + [chr(ord("A") + j - 1) for j in range(1, W + 1)]
+        ops = ["e"]
+        if self.restart_text is not None:
+            ops.append("r")
+            if self.remaining() > 0:
+                ops += [str(j) for j in range(1, W)]
+        if self.remaining() > 0 and len(self.inflight) == W:
+            ops.append("d")
+        return ops
+
+    def apply(self, op):
+        st = self.state
+        if op == "e":
+            self.event()
+        elif op == "r":
+            self.restart()
+        elif op == "d":
+            # the configured number of steps is such that the jobs now in flight are the last ones
+            st.config["simulation"]["steps"] = st.cstep + len(self.inflight)
+        elif op == "x" or "A" <= op <= "Z":
+            # the finished run is extended (the documented way: raise 'steps' in restart.toml)
+            if self.event():
+                raise RuntimeError("extend: run not finished")
+            self.restart(steps=10**6 if op == "x" else st.cstep + 1 + ord(op) - ord("A"))
+        else:
+            # killed, then restarted with a budget of int(op) more steps
+            self.restart(steps=st.cstep + int(op))
+
     def canon(self):
         st = self.state
         live = st.live_paths()
@@ -381,7 +523,7 @@ class L1Run:
         occ = tuple(sorted((k, tuple(v)) for k, v in st.engine_occ.items()))
         locked = tuple(sorted((tuple(l[0]), tuple(live.index(int(p)) if int(p) in live else -1 for p in l[1]))
                               for l in st.locked))
-        return (rows, locks, tuple(sorted(jobs)), occ, locked, st.toinitiate)
+        return (rows, locks, tuple(sorted(jobs)), occ, locked, st.toinitiate, self.remaining())
 
 
 class Observer:
@@ -435,13 +577,14 @@ class Violation(Exception):
         self.msg = msg
 
 
-def run_history(spec, choices, n_events, observers, workdir):
-    """Replay ``choices`` then continue with default choices up to n_events."""
+def run_history(spec, choices, n_events, observers, workdir, ops=None):
+    """Replay ``choices`` then continue with default choices up to n_events transitions
+    (``ops``: one letter per transition, 'e' = scheduler iteration, 'r' = kill + restart)."""
     ch = Chooser(choices)
     run = L1Run(spec, ch, workdir, observers)
     run.start()
-    for _ in range(n_events):
-        run.event()
+    for op in (ops or "e" * n_events):
+        run.apply(op)
     return run, ch
 
 
@@ -450,24 +593,25 @@ _LEVEL = {}
 
 def _expand_one(idx):
     """All successors of frontier state idx (runs in a forked worker)."""
-    snap, hist = _LEVEL["frontier"][idx]
+    snap, hist, _ops = _LEVEL["frontier"][idx]
     wd = _LEVEL["workdir"] + f"-w{os.getpid()}"
     if not os.path.isdir(wd):
         shutil.copytree(snap.dir, wd)
     out = []
 
-    def fn(ch):
-        run = snap.clone(ch)
-        os.chdir(wd)
-        run.dir = wd
-        run.event()
-        return run
+    for op in (snap.enabled_ops() if snap.spec.restarts else ["e"]):
+        def fn(ch, op=op):
+            run = snap.clone(ch)
+            os.chdir(wd)
+            run.dir = wd
+            run.apply(op)
+            return run
 
-    for ch, res in explore(_guard(fn)):
-        if isinstance(res, Violation):
-            out.append(("viol", (res.sig, res.msg), ch.choices))
-        else:
-            out.append(("ok", res.canon(), ch.choices))
+        for ch, res in explore(_guard(fn)):
+            if isinstance(res, Violation):
+                out.append(("viol", (res.sig, res.msg), ch.choices, op))
+            else:
+                out.append(("ok", res.canon(), ch.choices, op))
     return idx, out
 
 
@@ -515,8 +659,8 @@ def bfs(spec, make_observers, max_depth=None, max_states=None, workdir=None, on_
     def note_violation(v, hist, n_events):
         viols.setdefault(v.sig, (v.msg, dict(spec=spec_to_json(spec), choices=hist, n_events=n_events)))
 
-    def validate(run, hist, n_events):
-        r2, _ = run_history(spec, hist, n_events, make_observers(), workdir + "-val")
+    def validate(run, hist, ops):
+        r2, _ = run_history(spec, hist, len(ops), make_observers(), workdir + "-val", ops=ops)
         if r2.canon() != run.canon():
             raise RuntimeError(f"snapshot/replay divergence for history {hist}")
         stats["validated"] += 1
@@ -539,7 +683,7 @@ def bfs(spec, make_observers, max_depth=None, max_states=None, workdir=None, on_
                 on_transition(c)
             if c not in seen:
                 seen[c] = 0
-                frontier.append((res, ch.choices))
+                frontier.append((res, ch.choices, ""))
         while frontier:
             if max_depth is not None and depth >= max_depth:
                 capped = True
@@ -548,12 +692,15 @@ def bfs(spec, make_observers, max_depth=None, max_states=None, workdir=None, on_
             nxt = []
             results = _expand_level(frontier, procs)
             for idx, succ in results:
-                snap, hist = frontier[idx]
-                for kind, payload, choices in succ:
+                snap, hist, ops = frontier[idx]
+                for kind, payload, choices, op in succ:
                     stats["runs"] += 1
                     h2 = hist + choices
+                    ops2 = ops + op
+                    if op != "e":
+                        stats["restarts"] = stats.get("restarts", 0) + 1
                     if kind == "viol":
-                        viols.setdefault(payload[0], (payload[1], dict(spec=spec_to_json(spec), choices=h2, n_events=depth)))
+                        viols.setdefault(payload[0], (payload[1], dict(spec=spec_to_json(spec), choices=h2, n_events=depth, ops=ops2)))
                         continue
                     stats["transitions"] += 1
                     c = payload
@@ -566,12 +713,12 @@ def bfs(spec, make_observers, max_depth=None, max_states=None, workdir=None, on_
                         seen[c] = depth
                         # rebuild the live snapshot of the new state in this process
                         run = snap.clone(Chooser(choices))
-                        run.event()
+                        run.apply(op)
                         if run.canon() != c:
-                            raise RuntimeError(f"worker/parent divergence for history {h2}")
+                            raise RuntimeError(f"worker/parent divergence for history {h2} {ops2}")
                         if validate_every and len(seen) % validate_every == 0:
-                            validate(run, h2, depth)
-                        nxt.append((run, h2))
+                            validate(run, h2, ops2)
+                        nxt.append((run, h2, ops2))
             frontier = nxt
     finally:
         os.chdir(old_cwd)
@@ -579,7 +726,8 @@ def bfs(spec, make_observers, max_depth=None, max_states=None, workdir=None, on_
         if own:
             scratch.rmtree(os.path.dirname(workdir))
     return dict(states=len(seen), transitions=stats["transitions"], depth=depth, capped=capped,
-                runs=stats["runs"], validated=stats["validated"], frontier_empty=not frontier), viols
+                runs=stats["runs"], validated=stats["validated"], frontier_empty=not frontier,
+                restarts=stats.get("restarts", 0)), viols
 
 
 def _guard(fn):
@@ -607,7 +755,7 @@ def spec_to_json(spec):
     return dict(B=spec.B, workers=spec.workers, moves=spec.moves, cap=spec.cap, maxlength=spec.maxlength,
                 alphabet=spec.alphabet, engine_layout=spec.engine_layout, seed=spec.seed, steps=spec.steps,
                 n_jumps=spec.n_jumps, extra=spec.extra, rich=spec.rich, delete_old=spec.delete_old,
-                real_store=spec.real_store, labels=spec.labels)
+                real_store=spec.real_store, labels=spec.labels, restarts=spec.restarts)
 
 
 def spec_from_json(d):
